@@ -529,7 +529,11 @@ def run(ctx):
     for name in split_sample:
         a, b = cres[("cli", name)], cres[("split", name)]
         ctx.case(("split", name), nontrivial=True)
-        if a["header"] is None or a["header"] != b["header"] or a["rc"] != 0 or b["rc2"] != 0:
+        if a["rc"] != 0:
+            # rejected module: the front end process must reject it with the same diagnostics, no header either way
+            if b["rc1"] != a["rc"] or b["stderr"] != a["stderr"] or a["header"] is not None or b["header"] is not None:
+                split_bad.append(name)
+        elif a["header"] is None or a["header"] != b["header"] or b["rc2"] != 0:
             split_bad.append(name)
         # and the fresh embossc process agrees with the in-process library run up to anonymous numbering
         lib = base_run.get("corpus:" + name)
